@@ -10,7 +10,8 @@
 //! the model's flushed image must equal the mirror unit for unit.  Also after every step: `stat().free_blocks`,
 //! the catalog rows of the root and of the directory the operation addressed, and after a successful put the
 //! fetched file (extension, attribute, eof, number of chunks, checksum of all chunk bytes); `get` of a missing
-//! path: the same error class.  Switch off with `A2V_NO_FSFAT=1`.
+//! path: the same error class.  Switch off with `A2V_NO_FSFAT=1`.  Once per run: two directed scenarios on the real code
+//! (`fat-put-validates-file-image`, `fat-format-reuses-fat-buffer`, `fat-path-through-file`).
 use super::fs::{make_volume, Drv, Focus, OpRecord, Verdicts, World};
 use crate::util::*;
 use a2kit::fs::FileImage;
@@ -133,8 +134,124 @@ fn cat_answer(rows: &[String]) -> String {
     format!("ok {}", if items.is_empty() { "-".to_string() } else { items.join(",") })
 }
 
+// ------------------------------------------------------------------------------------------
+// directed scenarios on the real code (inputs the generator of fs.rs does not produce): once per run.  Both were defects
+// of the pinned tree found by the refinement proofs (fixes 7da7b06, 55a0597, 18164ab); they are strict: a regression is a failing input.
+
+fn report(vd: &mut Verdicts, owners: &[Focus], pass: bool, oracle: &str, detail: &str) {
+    for f in owners { vd.v(*f, pass, oracle, detail, &[format!("directed scenario {}", oracle)]); }
+}
+
+fn directed(vd: &mut Verdicts) {
+    use a2kit::bios::bpb;
+    use a2kit::fs::{fat, DiskFS};
+    use a2kit::img::{self, names, DiskKind};
+    let mk = || -> Result<fat::Disk, String> {
+        let kind = DiskKind::D525(names::IBM_SSDD_9);
+        let img = Box::new(img::dsk_img::Img::create(kind));
+        let boot = bpb::BootSector::create(&kind).map_err(|e| e.to_string())?;
+        let mut d = fat::Disk::from_img(img, Some(boot)).map_err(|e| e.to_string())?;
+        d.format("VERIF", None).map_err(|e| e.to_string())?;
+        Ok(d)
+    };
+    let fimg = |d: &mut fat::Disk, path: &str, chunks: &[(usize, Vec<u8>)], eof: u32| -> Result<FileImage, String> {
+        let mut f = d.new_fimg(None, true, path).map_err(|e| e.to_string())?;
+        for (i, c) in chunks { f.chunks.insert(*i, c.clone()); }
+        f.eof = eof.to_le_bytes().to_vec();
+        Ok(f)
+    };
+    // A: file images `put` must refuse before it changes anything: a hole (chunks 0,1,3), a length beyond the chunks
+    // (one chunk, eof 5000; no chunk, eof 10), a chunk longer than a cluster (700 bytes)
+    let owners_a = [Focus::C01, Focus::C03, Focus::C04, Focus::C05];
+    let a = guarded(|| -> Result<Option<String>, String> {
+        let cases: Vec<(&str, Vec<(usize, Vec<u8>)>, u32)> = vec![
+            ("hole: chunks {0,1,3} eof 2048", vec![(0, vec![1; 512]), (1, vec![2; 512]), (3, vec![3; 512])], 2048),
+            ("length beyond the chunks: one 512-byte chunk, eof 5000", vec![(0, vec![1; 512])], 5000),
+            ("length without a chunk: no chunk, eof 10", vec![], 10),
+            ("oversized chunk: one 700-byte chunk, eof 700", vec![(0, vec![7; 700])], 700),
+        ];
+        for (what, chunks, eof) in cases {
+            let mut d = mk()?;
+            let keep = fimg(&mut d, "KEEP.BIN", &[(0, vec![0xAA; 512])], 512)?;
+            d.put(&keep).map_err(|e| e.to_string())?;
+            let free0 = d.stat().map_err(|e| e.to_string())?.free_blocks;
+            let bytes0 = d.get_img().to_bytes();
+            let f = fimg(&mut d, "BAD.BIN", &chunks, eof)?;
+            let r = d.put(&f).map_err(|e| e.to_string());
+            let free1 = d.stat().map_err(|e| e.to_string())?.free_blocks;
+            let rows = d.catalog_to_vec("/").map_err(|e| e.to_string())?;
+            match r {
+                Ok(n) => return Ok(Some(format!("{}: put was accepted (Ok({})), catalog {:?}", what, n, rows))),
+                Err(e) => if d.get_img().to_bytes() != bytes0 || free1 != free0 {
+                    return Ok(Some(format!("{}: put was refused ({}) but the volume changed: free_blocks {} -> {}, catalog {:?}", what, e, free0, free1, rows)));
+                }
+            }
+        }
+        Ok(None)
+    });
+    match a {
+        Ok(Ok(None)) => report(vd, &owners_a, true, "fat-put-validates-file-image", ""),
+        Ok(Ok(Some(why))) => report(vd, &owners_a, false, "fat-put-validates-file-image", &format!("fresh ibm-ssdd-9 volume labelled VERIF, put KEEP.BIN, then a file image from new_fimg with {}", why)),
+        Ok(Err(e)) => vd.out.count(&format!("directed-setup-error:{}", e)),
+        Err(p) => report(vd, &owners_a, false, "fat-put-validates-file-image", &format!("panic {}", p)),
+    }
+    // B: re-format through an object that has been used: the old allocations must be gone
+    let owners_b = [Focus::C04, Focus::C06];
+    let b = guarded(|| -> Result<Option<String>, String> {
+        let mut fresh = mk()?;
+        let free_fresh = fresh.stat().map_err(|e| e.to_string())?.free_blocks;
+        let bytes_fresh = fresh.get_img().to_bytes();
+        let mut d = mk()?;
+        let f = fimg(&mut d, "USED.BIN", &[(0, vec![1; 512]), (1, vec![2; 512]), (2, vec![3; 512])], 1536)?;
+        d.put(&f).map_err(|e| e.to_string())?;
+        d.format("VERIF", None).map_err(|e| e.to_string())?;
+        let free1 = d.stat().map_err(|e| e.to_string())?.free_blocks;
+        let rows = d.catalog_to_vec("/").map_err(|e| e.to_string())?;
+        if free1 != free_fresh || !rows.is_empty() {
+            return Ok(Some(format!("after put USED.BIN (3 clusters) and format through the same object: free_blocks {} (fresh volume: {}), catalog {:?}", free1, free_fresh, rows)));
+        }
+        if d.get_img().to_bytes() != bytes_fresh { return Ok(Some("the re-formatted image differs from a freshly formatted one".to_string())); }
+        Ok(None)
+    });
+    // C: a path does not lead through a file (fix 18164ab): `A` is a file of one zeroed cluster, which read as a directory
+    // would be an empty one
+    let owners_c = [Focus::C02, Focus::C05];
+    let c = guarded(|| -> Result<Option<String>, String> {
+        let mut d = mk()?;
+        let zeros = vec![0u8; 512];
+        let a = fimg(&mut d, "A", &[(0, zeros.clone())], 512)?;
+        d.put(&a).map_err(|e| e.to_string())?;
+        let bytes0 = d.get_img().to_bytes();
+        let x = fimg(&mut d, "A/X.TXT", &[(0, vec![9; 512])], 512)?;
+        let r_put = d.put(&x).map_err(|e| e.to_string());
+        let r_mkdir = d.create("A/SUB").map_err(|e| e.to_string());
+        let r_get = d.get("A/X.TXT").map(|g| g.chunks.len()).map_err(|e| e.to_string());
+        let r_del = d.delete("A/X.TXT").map_err(|e| e.to_string());
+        let a_now = d.get("A").map_err(|e| e.to_string())?;
+        let intact = a_now.chunks.get(&0) == Some(&zeros);
+        if r_put.is_ok() || r_mkdir.is_ok() || r_get.is_ok() || r_del.is_ok() || !intact || d.get_img().to_bytes() != bytes0 {
+            return Ok(Some(format!("put A/X.TXT => {:?}, mkdir A/SUB => {:?}, get A/X.TXT => {:?}, delete A/X.TXT => {:?}; content of A intact: {}; image unchanged: {}",
+                r_put, r_mkdir, r_get, r_del, intact, d.get_img().to_bytes() == bytes0)));
+        }
+        Ok(None)
+    });
+    match c {
+        Ok(Ok(None)) => report(vd, &owners_c, true, "fat-path-through-file", ""),
+        Ok(Ok(Some(why))) => report(vd, &owners_c, false, "fat-path-through-file", &format!("fresh ibm-ssdd-9 volume labelled VERIF, put A (one 512-byte chunk of zeros), then operations on paths below the file A: {}", why)),
+        Ok(Err(e)) => vd.out.count(&format!("directed-setup-error:{}", e)),
+        Err(p) => report(vd, &owners_c, false, "fat-path-through-file", &format!("panic {}", p)),
+    }
+    match b {
+        Ok(Ok(None)) => report(vd, &owners_b, true, "fat-format-reuses-fat-buffer", ""),
+        Ok(Ok(Some(why))) => report(vd, &owners_b, false, "fat-format-reuses-fat-buffer", &format!("fresh ibm-ssdd-9 volume labelled VERIF: {}", why)),
+        Ok(Err(e)) => vd.out.count(&format!("directed-setup-error:{}", e)),
+        Err(p) => report(vd, &owners_b, false, "fat-format-reuses-fat-buffer", &format!("panic {}", p)),
+    }
+}
+
 pub fn after_step(drv: &mut Drv, w: &mut World, vd: &mut Verdicts, desc: &str) {
     if std::env::var("A2V_NO_FSFAT").is_ok() || w.cfg.container != "img" { return; }
+    { static ONCE: std::sync::Once = std::sync::Once::new(); let mut run = false; ONCE.call_once(|| run = true); if run { directed(vd); } }
     let first = drv.ask("fsf ready") != "yes";
     if first {
         format_tie(drv, w, vd);
